@@ -151,6 +151,7 @@ type Lab struct {
 
 	predMu         sync.Mutex
 	lastPred       map[uint64]predSample
+	lastSucc       map[uint64]predSample
 	PredRegression []PredRegression
 
 	// freeze of the periodic tasks (see FreezePeriodic)
@@ -1058,6 +1059,7 @@ type predSample struct {
 // PredRegression: the predecessor pointer of Node moved from Old to New although Old was still a
 // live member and New is not between Old and Node.
 type PredRegression struct {
+	Succ           bool // the successor pointer (false: the predecessor pointer)
 	Node, Old, New uint64
 	OldState       string
 	OldHistory     string
@@ -1066,6 +1068,9 @@ type PredRegression struct {
 }
 
 func (r PredRegression) String() string {
+	if r.Succ {
+		return fmt.Sprintf("[%d] at %s node %d's successor pointer went from %d (still %s) to %d, which is farther away", r.T, r.Point, r.Node, r.Old, r.OldState, r.New)
+	}
 	return fmt.Sprintf("[%d] at %s node %d's predecessor pointer went from %d (still %s) to %d, which is farther away", r.T, r.Point, r.Node, r.Old, r.OldState, r.New)
 }
 
@@ -1080,12 +1085,25 @@ func (l *Lab) samplePred(point string, node uint64) {
 	// a regression)
 	l.predMu.Lock()
 	cur, ok := m.Node.VerifPredecessorID()
+	scur, sok := m.Node.VerifSuccessorID()
 	if l.lastPred == nil {
 		l.lastPred = map[uint64]predSample{}
+		l.lastSucc = map[uint64]predSample{}
 	}
 	prev, had := l.lastPred[node]
 	l.lastPred[node] = predSample{cur, ok}
+	sprev, shad := l.lastSucc[node]
+	l.lastSucc[node] = predSample{scur, sok}
 	l.predMu.Unlock()
+	// the same rule for the successor pointer, mirrored: while the node it named has been live all
+	// along, it may only move to a node strictly between this node and that one
+	if shad && sprev.ok && sok && scur != sprev.id && scur != node && sprev.id != node {
+		if old := l.Member(sprev.id); old != nil && liveAllAlong(old) && !chord.Between(node, scur, sprev.id, false) {
+			l.predMu.Lock()
+			l.PredRegression = append(l.PredRegression, PredRegression{Succ: true, Node: node, Old: sprev.id, New: scur, OldState: old.State().String(), OldHistory: fmt.Sprint(old.Node.VerifStateHistory()), Point: point, T: mono() / 1000})
+			l.predMu.Unlock()
+		}
+	}
 	if !had || !prev.ok || !ok || cur == prev.id || cur == node || prev.id == node {
 		return
 	}
@@ -1124,4 +1142,22 @@ func (l *Lab) PredRegressions() []PredRegression {
 	l.predMu.Lock()
 	defer l.predMu.Unlock()
 	return append([]PredRegression{}, l.PredRegression...)
+}
+
+// liveAllAlong: a member now, and never gone in between (one join, no leave in its history).
+func liveAllAlong(m *Member) bool {
+	st := m.State()
+	if st != chord.Active && st != chord.Transferring {
+		return false
+	}
+	joins := 0
+	for _, h := range m.Node.VerifStateHistory() {
+		switch h {
+		case chord.Joining:
+			joins++
+		case chord.Leaving, chord.Left:
+			return false
+		}
+	}
+	return joins <= 1
 }
